@@ -294,7 +294,11 @@ def part_a(rep, tier):
         worst = max(worst, rec['worst'])
         if rec['n'] > 0:
             distinct.add(common.canon(c))
-        if oc.startswith('run:'):
+        if oc.startswith('run:ZeroDivisionError') and c['residual_type'].endswith('rel'):
+            # a relative residual of a step whose initial value is identically zero (zero initial guess, later step of a
+            # Jacobi block): the residual is undefined, the library divides by zero - a numerical failure, not a verdict
+            outcomes['undefined_relative_residual(u0=0)'] = outcomes.get('undefined_relative_residual(u0=0)', 0) + 1
+        elif oc.startswith('run:'):
             rep.violation({'kind': 'run_failed', 'cfg': c}, {'error': oc}, {'part': 'A', 'cfg': c})
         for b in rec['bad'][:1]:
             rep.violation({'kind': 'residual_not_true_defect', 'cfg': c, 'where': b['where'], 'level': b['level']}, b, {'part': 'A', 'cfg': c})
